@@ -42,7 +42,7 @@ Definition implies_on_valid (al : allowlists) (relax : bool) (fr fb : string) : 
   forall p, api_valid p = true ->
             cr_allowed (run_check al relax fr p) = true -> cr_allowed (run_check al relax fb p) = true.
 
-Theorem C03_generic : forall al relax (cs : list named_check) v p,
+Theorem restricted_implies_baseline_generic : forall al relax (cs : list named_check) v p,
   well_formed cs = true -> majors_one cs = true -> api_valid p = true ->
   (forall id r id' r', In (id, r) (resolve cs Baseline v) -> In (id', r') (resolve cs Restricted v) ->
                        In id (vc_overrides r') -> implies_on_valid al relax (vc_fn r') (vc_fn r)) ->
@@ -157,14 +157,14 @@ Qed.
 
 (** ** C03 for any table whose simultaneously active override pairs are known *)
 
-Theorem C03_levels_ordered_generic : forall al relax (cs : list named_check) v p,
+Theorem levels_ordered_known_pairs : forall al relax (cs : list named_check) v p,
   well_formed cs = true -> majors_one cs = true ->
   mem "NET_BIND_SERVICE" (al_caps al) = true -> pairs_ok known_pairs cs = true ->
   api_valid p = true ->
   eval_allowed al relax cs Restricted v p = true -> eval_allowed al relax cs Baseline v p = true.
 Proof.
   intros al relax cs v p W M Hn Hp Hv.
-  apply C03_generic; try assumption.
+  apply restricted_implies_baseline_generic; try assumption.
   intros id r id' r' Hb Hr Ho. apply known_pairs_imply; [exact Hn|].
   exact (pairs_ok_all_versions known_pairs cs v id r id' r' Hp Hb Hr Ho).
 Qed.
@@ -172,7 +172,7 @@ Qed.
 Lemma eval_allowed_privileged al relax cs v p : eval_allowed al relax cs Privileged v p = true.
 Proof. reflexivity. Qed.
 
-Theorem C03_relaxation_safe_generic : forall al relax (cs : list named_check) v p (l l' : level),
+Theorem relaxation_safe_known_pairs : forall al relax (cs : list named_check) v p (l l' : level),
   well_formed cs = true -> majors_one cs = true ->
   mem "NET_BIND_SERVICE" (al_caps al) = true -> pairs_ok known_pairs cs = true ->
   api_valid p = true -> (strictness l' <= strictness l)%N ->
@@ -181,7 +181,7 @@ Proof.
   intros al relax cs v p l l' W M Hn Hp Hv Hs H.
   destruct l'; [reflexivity| |].
   - destruct l; cbn in Hs; [lia|exact H|].
-    exact (C03_levels_ordered_generic al relax cs v p W M Hn Hp Hv H).
+    exact (levels_ordered_known_pairs al relax cs v p W M Hn Hp Hv H).
   - destruct l; cbn in Hs; [lia|lia|exact H].
 Qed.
 
@@ -193,5 +193,5 @@ Proof.
   intros W M Hn Hp. unfold P03.
   destruct (api_valid p) eqn:Hv; [|reflexivity]. cbn [negb orb].
   destruct (eval_allowed al relax cs Restricted v p) eqn:HR; [|reflexivity]. cbn [negb orb].
-  exact (C03_levels_ordered_generic al relax cs v p W M Hn Hp Hv HR).
+  exact (levels_ordered_known_pairs al relax cs v p W M Hn Hp Hv HR).
 Qed.
